@@ -51,10 +51,10 @@ def resolve (baseHost basePath : Bytes) (loc : RUrl) : Resolved :=
   | .rooted => ⟨baseHost, loc.path, loc.rawQuery⟩
   | .relative => ⟨baseHost, baseDir basePath ++ loc.path, loc.rawQuery⟩
 
-/-- known-finding class C18-b: a relative reference resolved below a base path that is not
-    directly under the root (`/s/a` + `b`; the code drops the separator, or the directory) -/
-def inClass_C18_b (basePath : Bytes) (loc : RUrl) : Bool :=
-  formOf loc == .relative && baseDir basePath != b!"/"
+/- (C18-b — a relative reference below a base path of two or more segments lost its separator or
+   its directory: `/s/a` + `b` ⇒ `/sb`, `/s/` + `b` ⇒ `/b` — was repaired in util.RedirectedURL;
+   its class predicate is gone, the inputs are covered by the full-strength theorem
+   `Props.C18.location_resolution` and by the regression stream kf.C18-b.) -/
 
 /-! ### One hop -/
 
